@@ -480,6 +480,10 @@ func checkC03(w *World, r *Recorder) propInfo {
 		}
 	}
 	remapRule(r, "C19-Y4", "C03-S4")
+	// S8: decoding the token gives back the claims, claim for claim: the claims
+	// and component decoders are the inverse-shaped twins of the encoders (the
+	// C09 shape rules I1 / I1c / I2 run again under this property)
+	importRules(w, r, checkC09, "C03-S8", func(o *Oblig) bool { return o.Rule == "C09-I1" || o.Rule == "C09-I1c" || o.Rule == "C09-I2" })
 	auditCoseSign(w, r, "C03-audit")
 	auditCoseMarshal(w, r, "C03-audit")
 	// S6: verification with the matching key succeeds only if Verify rejects
@@ -711,6 +715,12 @@ func checkC19(w *World, r *Recorder) propInfo {
 	// go-cose error or the missing-envelope guard (C03-S6 run again under this
 	// property), not some other state an earlier operation left in the Evidence
 	importRules(w, r, checkC03, "C19-Y10", func(o *Oblig) bool { return o.Rule == "C03-S6" })
+	// Y11: the attached claims of a decoded Evidence are the decoding of the
+	// payload and nothing more: the claims decoders are twins of the encoders
+	// and clear the pre-populated profile before decoding (C09-I1 / I1c / I2) — a
+	// decoder that keeps a default for an absent claim attaches claims the
+	// verified payload does not carry
+	importRules(w, r, checkC09, "C19-Y11", func(o *Oblig) bool { return o.Rule == "C09-I2" || o.Rule == "C09-I1c" })
 	// Y9: for claims of an extension profile the payload signed comes from the
 	// embedding-aware serialiser: it may leave a field out only under the C15-H4
 	// conditions (a present claim silently dropped from the signed payload makes
